@@ -122,6 +122,61 @@ def check_global_state(cx, chk, R="C05.key"):
     chk.floor(R, "mutable uses of ParseGlobal fields (cache, tracer)", n, 50)
 
 
+def check_entry_wrappers(cx, chk, R="C01.entry"):
+    """The friendly entry points hand their input on unchanged: on every path of `PegParser::parse` / `parse_with_trace` (and of
+    the generated `parse_advanced`) the text that reaches `parse_advanced` / `ParseState::new` is the caller's own `&str`, and the
+    result is returned as it comes - offsets in results and errors are offsets into the string the caller passed."""
+    from .. import sem
+    rt = cx.runtime
+    S = sem.Sem(cx, rt, inline=lambda p_: p_ in rt.fns and "mir" in rt.fns[p_] and "peg_parser" in p_ and "{closure" not in p_ and last(p_) != "parse_advanced")
+    P1 = mir.mk("param", 1)
+    n = 0
+    for p, f in sorted(rt.fns.items()):
+        if "mir" not in f or "{closure" in p or "PegParser>::" not in p or last(p) not in ("parse", "parse_with_trace"):
+            continue
+        try:
+            sm = S.summarize(p)
+        except sem.SemLimit:
+            sm = None
+        tag = "wrapper %s" % last(p)
+        if sm is None or not sm.complete:
+            chk.violation(R, tag + " unsummarised", "the entry point %s does not summarise" % short(p), cx.site(cx.body(rt, p)))
+            continue
+        n += 1
+        bad = None
+        for l in sm.returns:
+            calls = [ev[0] for ev in l.trace if ev[0][0] == "call" and last(ev[0][1]) == "parse_advanced"]
+            if len(calls) != 1:
+                bad = "does not call parse_advanced exactly once on a path"
+            elif strip(calls[0][2][0]) != P1:
+                bad = "hands %s to parse_advanced instead of its own argument" % mir.show(calls[0][2][0])[:80]
+            elif l.ret != calls[0]:
+                bad = "returns %s instead of the result of parse_advanced" % mir.show(l.ret)[:80]
+        if bad:
+            chk.violation(R, tag, "PegParser::%s %s: every offset the parser reports (positions, error offsets) then refers to another string than the one "
+                          "the caller passed, and the rule is not applied at offset 0 of the input" % (last(p), bad), cx.site(cx.body(rt, p)))
+        else:
+            chk.ok(R, tag, {"entry": short(p), "rule": "parse_advanced(own argument, ..) called once, result returned unchanged"})
+    chk.floor(R, "friendly entry points", n, 2)
+    # generated parse_advanced: the state is ParseState::new(own first argument, settings)
+    k = 0
+    for inst in cx.instances():
+        for p, f in sorted(inst.fns.items()):
+            if "mir" not in f or last(mir.strip_generics(p)) != "parse_advanced" or "{closure" in p:
+                continue
+            b = cx.body(inst.crate, p)
+            for i, t in b.calls():
+                fn = t["func"]
+                if fn.get("indirect") or not mir.strip_generics(fn["path"]).endswith("ParseState::new"):
+                    continue
+                k += 1
+                a0 = strip(norm(b.expr_op(t["args"][0])))
+                if a0 != ("param", 1):
+                    chk.violation(R, "%s parse_advanced input" % inst.name, "a generated parse_advanced starts from ParseState::new(%s), not from its own input"
+                                  % mir.show(a0)[:80], cx.site(b, i))
+    chk.ok(R, "generated parse_advanced start from their own input", {"entry_points": k})
+
+
 def check_wrappers(cx, chk):
     """Obligations of every cached wrapper, read off its semantic summary (wrapsem.py)."""
     from . import wrapsem
